@@ -138,6 +138,9 @@ class PyFormatter(Formatter):
         return f"{factory}()"
 
     def format_default_value_enum(self, t: Enum) -> str:
+        if not t.fields():
+            # An enum without fields has no first field to default to.
+            return "0"
         return f"{self.format_type(t)}.{self.format_enum_field_name(t.fields()[0])}"
 
     def format_default_value_array(self, t: Array) -> str:
